@@ -239,7 +239,11 @@ class _Gen:
             style = r.random()
             if style < 0.8:
                 self.emit(ind, f"except {r.choice(['ValueError', 'KeyError', '(ValueError, KeyError)', 'Exception', 'LookupError'])}{r.choice(['', ' as exc'])}:")
-                self.block(ind + 1, depth + 1, in_loop, 1)
+                if in_loop and r.random() < 0.3:
+                    self.features.add("except-only-jump")
+                    self.emit(ind + 1, r.choice(["continue", "break"]))  # handler body that is only a jump (dead cleanup blocks)
+                else:
+                    self.block(ind + 1, depth + 1, in_loop, 1)
                 if r.random() < 0.3:
                     self.emit(ind, "except KeyError:")
                     self.emit(ind + 1, "x -= 1")
